@@ -344,7 +344,11 @@ class ClientWorldObjectManager:
             obj = obj.Parent
 
     def clear(self):
-        for handle in tuple(self._region_managers.keys()):
+        for handle, region_mgr in tuple(self._region_managers.items()):
+            # Tearing down the world tears down every region in it: clears the region's own
+            # indices and cancels its pending requests. Normally calls back into
+            # untrack_region_objects() itself, but only if the region still has its handle.
+            region_mgr.clear()
             self.untrack_region_objects(handle)
         self._avatars.clear()
         if self._fullid_lookup:
